@@ -293,7 +293,7 @@ func (cw *verifC14World) terminate(cs *verifC14Sess, how string) {
 }
 
 // request: one client message through Session.dispatchRaw (the reader's goroutine).
-func (cw *verifC14World) request(cs *verifC14Sess, kind, t string, hard bool) {
+func (cw *verifC14World) request(cs *verifC14Sess, kind, t string, hard bool, px ...string) string {
 	id := cw.id()
 	var m map[string]any
 	ta := ""
@@ -316,6 +316,9 @@ func (cw *verifC14World) request(cs *verifC14Sess, kind, t string, hard bool) {
 	}
 	b, _ := json.Marshal(m)
 	ev := verifC14Event{"e": "req", "k": kind, "t": t, "id": id, "hard": hard}
+	if len(px) > 0 {
+		ev["px"] = px[0] // probe after a store fault: the class of reply the property demands
+	}
 	cs.add(ev)
 	cs.curReq.Store(kind + ":" + t)
 	atomic.StoreInt32(&cs.inDisp, 1)
@@ -329,6 +332,7 @@ func (cw *verifC14World) request(cs *verifC14Sess, kind, t string, hard bool) {
 	}()
 	atomic.StoreInt32(&cs.inDisp, 0)
 	cs.add(verifC14Event{"e": "ret", "id": id}) // dispatch came back to the read loop
+	return id
 }
 
 // ---------------------------------------------------------------- programs
@@ -522,6 +526,141 @@ func (cw *verifC14World) snapshot() map[string]any {
 	})
 	sort.Strings(reg)
 	return map[string]any{"sess": sess, "topics": topics, "rows": rows, "registry": reg}
+}
+
+// canonOf: hub name of an abstract topic (groups and p2p).
+func (cw *verifC14World) canonOf(t string) string {
+	if strings.HasPrefix(t, "g") {
+		return cw.grp[t]
+	}
+	if strings.HasPrefix(t, "p") && len(t) == 3 {
+		return cw.w.users["u"+t[1:2]].P2PName(cw.w.users["u"+t[2:3]])
+	}
+	return t
+}
+
+// probeAfterFault: the store call of a request failed in this round (the request itself was answered or not - the monitors look
+// at that); now, quietly and one request at a time: every session attached to the topic leaves it, the idle timer unloads it,
+// a member subscribes again. Returns the snapshots taken on the way.
+func (cw *verifC14World) probeAfterFault(round int, plan map[string]any, t string, clients []*verifC14Client, pc int,
+	hung *[]map[string]any, parkedAll *[]map[string]any, seen map[int]bool) ([]map[string]any, bool) {
+	w := cw.w
+	var out []map[string]any
+	one := func(c *verifC14Client, cs *verifC14Sess, kind, px string) bool {
+		fin := make(chan string, 1)
+		var gid int64
+		go func() {
+			atomic.StoreInt64(&gid, verifC14Goid())
+			fin <- cw.request(cs, kind, t, false, px)
+		}()
+		select {
+		case id := <-fin:
+			deadline := time.Now().Add(1500 * time.Millisecond)
+			for time.Now().Before(deadline) {
+				cs.mu.Lock()
+				for _, e := range cs.ev {
+					if e["e"] == "ctrl" && e["id"] == id {
+						cs.mu.Unlock()
+						return true
+					}
+				}
+				cs.mu.Unlock()
+				time.Sleep(50 * time.Microsecond)
+			}
+			return true // no reply: the monitor says so
+		case <-time.After(1500 * time.Millisecond):
+			*parkedAll = append(*parkedAll, verifC14Parked(seen)...)
+			cs.vs.dead = true
+			idx := 0
+			if c != nil {
+				idx = c.idx
+			}
+			*hung = append(*hung, map[string]any{"client": idx, "op": "probe:" + kind + ":" + t, "sess": cs.name, "round": round,
+				"goid": atomic.LoadInt64(&gid), "clean": atomic.LoadInt32(&cs.clean), "req": kind + ":" + t})
+			return false
+		}
+	}
+	snap := func(extra map[string]any) bool {
+		err := w.quiesce()
+		sn := map[string]any{"round": round, "quiesced": err == nil, "plan": plan, "probe": true}
+		for k, v := range extra {
+			sn[k] = v
+		}
+		if err == nil {
+			sn["st"] = cw.snapshot()
+		} else {
+			sn["st"] = map[string]any{"sess": map[string]any{}, "topics": map[string]any{}, "rows": map[string]any{}, "registry": []string{}}
+			sn["qerr"] = err.Error()
+			sn["why"] = cw.whyNotQuiet()
+		}
+		out = append(out, sn)
+		return err == nil
+	}
+	canon := cw.canonOf(t)
+	// 1. everybody attached leaves (expected: 200)
+	if tp := w.hub.topicGet(canon); tp != nil && !tp.isInactive() {
+		var att []*verifC14Sess
+		for s := range tp.sessions {
+			if cs, ok := cw.byPtr[s]; ok && cs.term() == "" && !cs.writerDone() && atomic.LoadInt32(&cs.inDisp) == 0 {
+				att = append(att, cs)
+			}
+		}
+		sort.Slice(att, func(i, j int) bool { return att[i].name < att[j].name })
+		for _, cs := range att {
+			var cl *verifC14Client
+			for _, c := range clients {
+				if c.cur == cs {
+					cl = c
+				}
+			}
+			if !one(cl, cs, "leave", "ok") {
+				return out, true
+			}
+		}
+	}
+	if w.quiesce() != nil {
+		snap(nil)
+		return out, true
+	}
+	// 2. the idle timer unloads the topic
+	must := []string{}
+	if tp := w.hub.topicGet(canon); tp != nil && !tp.isInactive() && len(tp.sessions) == 0 {
+		tp.killTimer.Reset(time.Nanosecond)
+		time.Sleep(300 * time.Microsecond)
+		must = append(must, t)
+	}
+	if !snap(map[string]any{"mustUnload": must}) {
+		return out, true
+	}
+	// 3. a member subscribes again
+	if pc >= 0 && pc < len(clients) {
+		c := clients[pc]
+		cw.mu.Lock()
+		gone := cw.gone[c.user]
+		cw.mu.Unlock()
+		if strings.HasPrefix(t, "p") && len(t) == 3 { // a p2p topic of a deleted account is refused for good: nothing to probe
+			cw.mu.Lock()
+			gone = gone || cw.gone["u"+t[1:2]] || cw.gone["u"+t[2:3]]
+			cw.mu.Unlock()
+		}
+		if cs := c.cur; cs != nil && cs.term() == "" && !cs.writerDone() && !gone {
+			px := "norm"
+			if strings.HasPrefix(t, "g") {
+				for _, row := range memadp.Get().Dump().Topics {
+					if row.Name == canon && row.State != "del" && row.State != "deleted" {
+						px = "ok"
+					}
+				}
+			}
+			if !one(c, cs, "sub", px) {
+				return out, true
+			}
+			if !snap(nil) {
+				return out, true
+			}
+		}
+	}
+	return out, false
 }
 
 // whyNotQuiet names what keeps the World from being quiescent (channel lengths and atomics only).
@@ -877,6 +1016,7 @@ func verifC14Run(t *testing.T, run int, seed int64, rounds, opsPer int, seen map
 	// ---- rounds
 	hungClients := []map[string]any{}
 	parkedAll := []map[string]any{}
+	bricked := map[string]bool{} // p2p topics whose deletion failed in the store after both participants had unsubscribed
 	for round := 1; round <= rounds && !hang; round++ {
 		plan := map[string]any{}
 		// idle unload: re-arm the real kill timer of idle topics with a short delay (quiescent: the actor is parked in select)
@@ -925,8 +1065,12 @@ func verifC14Run(t *testing.T, run int, seed int64, rounds, opsPer int, seen map
 			progs[ci] = append(append(append([]verifC14Op{}, p[:at]...), ops...), p[at:]...)
 		}
 		at := 1 + rng.Intn(3)
+		faultMethod, probeTopic, probeClient := "", "", -1
+		memberOf := func(ci int, tn string) bool {
+			return !strings.HasPrefix(tn, "p") || strings.Contains(tn[1:], clients[ci].user[1:])
+		}
 		switch {
-		case stage < 30: // subscribe races with the owner's {del topic}
+		case stage < 25: // subscribe races with the owner's {del topic}
 			rv := &verifC14RV{n: 2, ch: make(chan struct{})}
 			ins(oc, at, verifC14Op{K: "deltopic", T: g, Hard: rng.Intn(5) != 0, RV: rv})
 			ins(oth, at, verifC14Op{K: "sub", T: g, RV: rv}, verifC14Op{K: []string{"leave", "sub", "pub", "disc"}[rng.Intn(4)], T: g}, verifC14Op{K: "reconn"})
@@ -934,13 +1078,13 @@ func verifC14Run(t *testing.T, run int, seed int64, rounds, opsPer int, seen map
 				ins(oth2, at, verifC14Op{K: "pub", T: g}, verifC14Op{K: "pub", T: g}, verifC14Op{K: "sub", T: g})
 			}
 			plan["stage"] = "sub_vs_deltopic:" + g
-		case stage < 45: // leave races with the owner's {del topic}
+		case stage < 37: // leave races with the owner's {del topic}
 			rv := &verifC14RV{n: 2, ch: make(chan struct{})}
 			ins(oc, at, verifC14Op{K: "deltopic", T: g, Hard: true, RV: rv})
 			ins(oth, 1, verifC14Op{K: "sub", T: g})
 			ins(oth, at+1, verifC14Op{K: "leave", T: g, RV: rv}, verifC14Op{K: "sub", T: g})
 			plan["stage"] = "leave_vs_deltopic:" + g
-		case stage < 60 && len(unl) > 0: // subscribe races with the idle unload armed above
+		case stage < 50 && len(unl) > 0: // subscribe races with the idle unload armed above
 			tu := unl[rng.Intn(len(unl))]
 			if !strings.HasPrefix(tu, "me:") {
 				for _, ci := range []int{oth, oc} {
@@ -951,12 +1095,12 @@ func verifC14Run(t *testing.T, run int, seed int64, rounds, opsPer int, seen map
 				}
 				plan["stage"] = "sub_vs_unload:" + tu
 			}
-		case stage < 70: // account deletion races with subscribe / disconnect of the same user's other session
+		case stage < 58: // account deletion races with subscribe / disconnect of the same user's other session
 			rv := &verifC14RV{n: 2, ch: make(chan struct{})}
 			ins(4, at, verifC14Op{K: "deluser", Hard: rng.Intn(2) == 0, RV: rv})
 			ins(oth, at, verifC14Op{K: "sub", T: "p13", RV: rv})
 			plan["stage"] = "deluser_vs_sub"
-		case stage < 80: // two sessions of one user: unsub evicts the sibling while it leaves / subscribes
+		case stage < 66: // two sessions of one user: unsub evicts the sibling while it leaves / subscribes
 			rv := &verifC14RV{n: 2, ch: make(chan struct{})}
 			a, b := 2, 3 // both u2
 			if g == "g2" {
@@ -967,8 +1111,70 @@ func verifC14Run(t *testing.T, run int, seed int64, rounds, opsPer int, seen map
 			ins(a, at+1, verifC14Op{K: "unsub", T: g, RV: rv})
 			ins(b, at+1, verifC14Op{K: []string{"leave", "sub", "pub"}[rng.Intn(3)], T: g, RV: rv}, verifC14Op{K: "sub", T: g})
 			plan["stage"] = "unsub_vs_sibling:" + g
+		// ---- store faults at the decisive adapter calls (the first call of the method in this round fails)
+		case stage < 74: // Topics.Delete fails during the owner's {del topic} of a loaded topic
+			faultMethod, probeTopic, probeClient = "TopicDelete", g, map[string]int{"g1": 5, "g2": 6}[g]
+			ins(oth, 1, verifC14Op{K: "sub", T: g})
+			ins(oc, at+1, verifC14Op{K: "deltopic", T: g, Hard: rng.Intn(4) != 0})
+			ins(oth, at+1, verifC14Op{K: []string{"leave", "sub", "pub"}[rng.Intn(3)], T: g}, verifC14Op{K: "sub", T: g}, verifC14Op{K: "leave", T: g})
+			plan["stage"] = "fault_deltopic:" + g
+		case stage < 79 && !bricked["p12"]: // Topics.Delete fails when the last p2p participant unsubscribes
+			faultMethod, probeTopic, probeClient = "TopicDelete", "p12", 0
+			rv := &verifC14RV{n: 2, ch: make(chan struct{})}
+			ins(0, 1, verifC14Op{K: "sub", T: "p12"}, verifC14Op{K: "unsub", T: "p12", RV: rv}, verifC14Op{K: "sub", T: "p12"})
+			ins(2, 1, verifC14Op{K: "sub", T: "p12"}, verifC14Op{K: "unsub", T: "p12", RV: rv}, verifC14Op{K: "leave", T: "p12"})
+			plan["stage"] = "fault_p2p_last_unsub:p12"
+		case stage < 86: // Subs.Delete / Subs.Update fails during {leave unsub=true}
+			faultMethod, probeTopic, probeClient = []string{"SubsDelete", "SubsDelete", "SubsUpdate"}[rng.Intn(3)], g, oth
+			ins(oth, 1, verifC14Op{K: "sub", T: g})
+			ins(oth, at+1, verifC14Op{K: "unsub", T: g}, verifC14Op{K: []string{"leave", "sub", "pub"}[rng.Intn(3)], T: g}, verifC14Op{K: "sub", T: g})
+			plan["stage"] = "fault_unsub:" + g
+		case stage < 93: // Topics.Get / Subs.* fails while topicInit loads the topic for a {sub}
+			cand := []string{}
+			for _, tn := range []string{"g1", "g2", "p12", "p13"} {
+				if tp := w.hub.topicGet(cw.canonOf(tn)); tp == nil && !bricked[tn] {
+					cand = append(cand, tn)
+				}
+			}
+			for _, tn := range unl {
+				if !strings.HasPrefix(tn, "me:") && !bricked[tn] {
+					cand = append(cand, tn)
+				}
+			}
+			if len(cand) > 0 {
+				tn := cand[rng.Intn(len(cand))]
+				if strings.HasPrefix(tn, "p") {
+					faultMethod = []string{"TopicGet", "UsersForTopic"}[rng.Intn(2)]
+				} else {
+					faultMethod = []string{"TopicGet", "SubsForTopic"}[rng.Intn(2)]
+				}
+				probeTopic = tn
+				for _, ci := range []int{oth, oc, oth2} {
+					if memberOf(ci, tn) {
+						if probeClient < 0 {
+							probeClient = ci
+						}
+						ins(ci, 1, verifC14Op{K: "sub", T: tn}, verifC14Op{K: []string{"leave", "sub", "pub", "disc"}[rng.Intn(4)], T: tn}, verifC14Op{K: "reconn"}, verifC14Op{K: "sub", T: tn})
+					}
+				}
+				plan["stage"] = "fault_init:" + tn
+			} else {
+				plan["stage"] = "none"
+			}
+		case stage < 97: // Users.Delete fails during {del user}
+			faultMethod, probeTopic, probeClient = "UserDelete", "p13", -1 // no re-subscribe: the account is half deleted
+			rv := &verifC14RV{n: 2, ch: make(chan struct{})}
+			ins(4, at, verifC14Op{K: "deluser", Hard: rng.Intn(2) == 0, RV: rv})
+			ins(oth, at, verifC14Op{K: "sub", T: "p13", RV: rv})
+			plan["stage"] = "fault_deluser"
 		default:
 			plan["stage"] = "none"
+		}
+		if faultMethod != "" {
+			plan["fault"] = faultMethod
+			w.hookMu.Lock()
+			w.fault = &verifFault{Method: faultMethod, Nth: 1, Mode: "error"}
+			w.hookMu.Unlock()
 		}
 		// slow consumer
 		var victim *verifC14Sess
@@ -1139,7 +1345,25 @@ func verifC14Run(t *testing.T, run int, seed int64, rounds, opsPer int, seen map
 			sn["qerr"] = qerr.Error()
 			sn["why"] = cw.whyNotQuiet()
 		}
+		fired := false
+		if faultMethod != "" {
+			w.hookMu.Lock()
+			fired = w.fault != nil && w.fault.fired
+			w.fault = nil
+			w.callLog = nil
+			w.hookMu.Unlock()
+			sn["faultFired"] = fired
+		}
 		snaps = append(snaps, sn)
+		if fired && qerr == nil && !hang {
+			// ---- after the failed request the topic must still be usable: a quiet probe (one request at a time)
+			psn, phang := cw.probeAfterFault(round, plan, probeTopic, clients, probeClient, &hungClients, &parkedAll, seen)
+			snaps = append(snaps, psn...)
+			hang = hang || phang
+			if strings.HasPrefix(fmt.Sprint(plan["stage"]), "fault_p2p") {
+				bricked["p12"] = true
+			}
+		}
 	}
 	parked := append(parkedAll, verifC14Parked(seen)...)
 	if parked == nil {
